@@ -134,7 +134,7 @@ def native_cases():
         (fractions.Fraction, fractions.Fraction(1, 3), 'Fraction'), (decimal.Decimal, decimal.Decimal('1.50'), 'Decimal'),
         (datetime.datetime, datetime.datetime(2020, 1, 2, 3, 4, 5), 'datetime'), (datetime.date, datetime.date(2020, 1, 2), 'date'),
         (datetime.time, datetime.time(3, 4, 5), 'time'), (pathlib.PurePosixPath, pathlib.PurePosixPath('a/b'), 'path'),
-        (re.Pattern, re.compile('a+b'), 'pattern'), (t.Pattern[str], re.compile('x*'), 'pattern[str]'),
+        (re.Pattern, re.compile('a+b'), 'pattern'), (re.Pattern, re.compile('a+b', re.IGNORECASE | re.MULTILINE), 'pattern-with-flags'), (t.Pattern[str], re.compile('x*'), 'pattern[str]'),
         (t.Set[int], {1, 2, 3}, 'set'), (t.FrozenSet[str], frozenset({'a', 'b'}), 'frozenset'),
         (t.Deque[int], collections.deque([1, 2]), 'deque'), (Color, Color.BLUE, 'enum'), (P, P(1, [2.0], Color.BLUE), 'dataclass'),
         (t.Tuple[int, str], (1, 'a'), 'tuple'), (t.Dict[str, t.Tuple[int, ...]], {'a': (1, 2)}, 'dict-of-tuples'),
